@@ -416,7 +416,7 @@ func tconcMonitor(k *TConcCase) []c.Hit {
 			srcBlocked = k.Ops[sf].Blocked // the harness gave up on the storing call: its end is unknown
 		}
 		switch {
-		case s.Method != o.Method || s.URL != o.URL:
+		case s.Method != o.Method || !sameURL(s.URL, o.URL):
 			add("wrong-key-hit:tconc", want, fmt.Sprintf("replayed the response given for %s %s", s.Method, s.URL))
 		case s.HdrKind != "ok" || (k.Conf.Type != "relative_seconds" && k.Conf.Type != "absolute_epoch"):
 			add("no-retry-after-replayed:tconc", fmt.Sprintf("op %d: replay only until the provider's retry-after time", i),
